@@ -8,8 +8,14 @@ From Eino Require Import Base.Util Base.Universe Model.Ser.
 Import ListNotations.
 Local Open Scope bool_scope.
 
-Definition key_of (k : val) : list (base * lit) :=
-  match k with VBase b l | VNamed _ b l => [(b, l)] | _ => [] end.
+(* the literals inside a map key (a value of basic kind, an array / struct of such) *)
+Fixpoint key_of (k : val) : list (base * lit) :=
+  match k with
+  | VBase b l | VNamed _ b l => [(b, l)]
+  | VArray _ es => flat_map key_of es
+  | VStruct _ fs => flat_map (fun fv => key_of (snd fv)) fs
+  | _ => []
+  end.
 
 Fixpoint val_lits (v : val) : list (base * lit) :=
   match v with
